@@ -281,3 +281,99 @@ func genCapCase(t *rapid.T) CaseCap {
 }
 
 var C13Cap = Register(&Check[CaseCap]{Prop: "C13", Name: "C13.cap", Gen: genCapCase, Eval: evalCap})
+
+// ---------- several calls accumulating into one list ----------
+
+// CaseMulti: comma-separated segments parsed by successive calls into ONE list
+// (the way contact values of several header lines accumulate), small vs ample capacity.
+type CaseMulti struct {
+	Hdrs bool          `json:"hdrs"` // ParseAllURIHdrs instead of ParseAllURIParams
+	Segs []TokListSpec `json:"segs"`
+	PCap int           `json:"p_cap"`
+}
+
+func runMulti(c CaseMulti, capN int) (string, int) {
+	flags := sipsp.POptTokCommaTermF
+	var buf []byte
+	var ends []int
+	for i, sg := range c.Segs {
+		sg.Flags = uint(sipsp.POptParamSemiSepF | sipsp.POptTokCommaTermF)
+		if c.Hdrs {
+			sg.Flags = uint(sipsp.POptParamAmpSepF | sipsp.POptTokURIHdrF | sipsp.POptTokCommaTermF)
+		}
+		sg.Term, sg.Tail = "end", nil
+		buf = append(buf, sg.Render()...)
+		if i < len(c.Segs)-1 {
+			buf = append(buf, ',')
+		}
+		ends = append(ends, len(buf))
+	}
+	var up sipsp.URIParamsLst
+	var uh sipsp.URIHdrsLst
+	if capN >= 0 {
+		up.Init(make([]sipsp.URIParam, capN))
+		uh.Init(make([]sipsp.URIHdr, capN))
+	}
+	out := ""
+	offs := 0
+	total := 0
+	for i := range c.Segs {
+		f := flags
+		if i == len(c.Segs)-1 {
+			f |= sipsp.POptInputEndF
+		}
+		var o, n int
+		var e sipsp.ErrorHdr
+		if c.Hdrs {
+			o, n, e = sipsp.ParseAllURIHdrs(buf, offs, &uh, f)
+			out += fmt.Sprintf("call %d: (%d,%d,%v) N=%d\n", i, o, n, e, uh.N)
+		} else {
+			o, n, e = sipsp.ParseAllURIParams(buf, offs, &up, f)
+			out += fmt.Sprintf("call %d: (%d,%d,%v) N=%d Types=%#x\n", i, o, n, e, up.N, uint(up.Types))
+		}
+		total += n
+		if e != 0 && e != sipsp.ErrHdrEOH {
+			break
+		}
+		offs = o + 1 // skip the ','
+	}
+	return out + fmt.Sprintf("input=%s", B(buf)), total
+}
+
+var C13Multi = Register(&Check[CaseMulti]{
+	Prop: "C13", Name: "C13.multicall",
+	Gen: func(t *rapid.T) CaseMulti {
+		c := CaseMulti{Hdrs: rapid.Bool().Draw(t, "hdrs"), PCap: pick(t, "pcap", -1, 0, 1, 2, 3)}
+		n := rapid.IntRange(2, 3).Draw(t, "nsegs")
+		for i := 0; i < n; i++ {
+			fl := uint(sipsp.POptParamSemiSepF | sipsp.POptTokCommaTermF)
+			if c.Hdrs {
+				fl = uint(sipsp.POptParamAmpSepF | sipsp.POptTokURIHdrF | sipsp.POptTokCommaTermF)
+			}
+			l := genTokList(t, fl)
+			// at least one real item, no commas inside unquoted text (the generator's alphabets have none)
+			var items []TokItem
+			for _, it := range l.Items {
+				if len(it.Name) > 0 {
+					items = append(items, it)
+				}
+			}
+			if len(items) == 0 {
+				items = []TokItem{{Name: B("p")}}
+			}
+			// trailing whitespace of the last item would be ambiguous with the terminator handling: keep it simple
+			items[len(items)-1].WS1, items[len(items)-1].WS3 = nil, nil
+			l.Items = items
+			c.Segs = append(c.Segs, l)
+		}
+		return c
+	},
+	Eval: func(c CaseMulti) Result {
+		small, ns := runMulti(c, c.PCap)
+		big, nb := runMulti(c, ampleCap)
+		if small != big || ns != nb {
+			return viol("successive calls on one list: with capacity %d\n%s\nwith ample capacity\n%s", c.PCap, small, big)
+		}
+		return ok(c.PCap < nb, fmt.Sprintf("segs:%d", len(c.Segs)))
+	},
+})
